@@ -491,7 +491,7 @@ def run(ctx):
             ctx.violations[k] = ("replayed case still fails", payload)
         shutil.rmtree(scratch, ignore_errors=True)
         return ctx.finish(RULE, False, [])
-    total = 12000 if ctx.thorough else 480
+    total = 8000 if ctx.thorough else 480
     infra = core.hypothesis_search(ctx, "pyv.c18", total)
     scratch = core.make_scratch("C18", "kf")
     rc = ctx.finish(RULE, False, [
